@@ -8,6 +8,7 @@ import Sentinel.DriverC17
 import Sentinel.DriverC18
 import Sentinel.DriverC20
 import Sentinel.DriverConc
+import Sentinel.DriverC19
 /-! Generic driver: reads a trace (`case <id>` headers, `<op> -> <obs>` lines) from stdin, checks
 every case with the property's `checkCase`, prints one line per case. -/
 namespace Sentinel
@@ -23,6 +24,7 @@ def checkerFor (prop : String) : Option (List (String × String) → Verdict) :=
   | "C17" => some DriverC17.checkCase
   | "C18" => some DriverC18.checkCase
   | "C20" => some DriverC20.checkCase
+  | "C19" => some DriverC19.checkCase
   | _ => none
 
 def renderVerdict (id : String) (v : Verdict) : String :=
